@@ -239,8 +239,12 @@ fn probe_failsafe_auth_first_chunk_verified() {
 /// fs.unauth superset: the authenticated result is a prefix of the unauthenticated one
 #[test]
 fn probe_failsafe_auth_prefix_of_unauth() {
-    for n in [100usize, C, C + 500, 2 * C + 7] {
+    for n in [100usize, C, C + 500, 2 * C + 7, 2 * C - 1, 2 * C - 8, 2 * C - 15, 2 * C - 16, 3 * C - 3] {
         let s = penc(n);
+        // undamaged: the unauthenticated mode gives everything
+        let u = pfailsafe_read_all(&s, FailSafeReaderDecryptionMode::DataEvenUnauthenticated);
+        // (the bytes of a final short chunk's tag come out as well: this mode cannot tell them from data)
+        assert!(u.len() >= n && u[..n] == pdata(n)[..], "len {n}: unauthenticated fail-safe read of an undamaged stream returned only {} of {n} bytes", u.len());
         for cut in [s.len(), s.len() - 1, s.len() - 16, s.len() - 17, C + 16, C + 15, C, 50] {
             if cut > s.len() { continue; }
             let a = pfailsafe_read_all(&s[..cut], FailSafeReaderDecryptionMode::OnlyAuthenticatedData);
